@@ -164,7 +164,7 @@ std::string AnalyzerInformation::getAnalyzerInfoFile(const std::string &buildDir
     return Path::join(buildDir, std::move(filename)) + ".analyzerinfo";
 }
 
-bool AnalyzerInformation::analyzeFile(const std::string &buildDir, const std::string &sourcefile, const std::string &cfg, std::size_t fsFileId, std::size_t hash, std::list<ErrorMessage> &errors, bool debug)
+bool AnalyzerInformation::analyzeFile(const std::string &buildDir, const std::string &sourcefile, const std::string &cfg, std::size_t fsFileId, std::size_t hash, std::list<ErrorMessage> &errors, bool debug, bool reuse)
 {
     if (mOutputStream.is_open())
         throw std::runtime_error("analyzer information file is already open");
@@ -174,7 +174,7 @@ bool AnalyzerInformation::analyzeFile(const std::string &buildDir, const std::st
 
     const std::string analyzerInfoFile = AnalyzerInformation::getAnalyzerInfoFile(buildDir,sourcefile,cfg,fsFileId);
 
-    {
+    if (reuse) {
         tinyxml2::XMLDocument analyzerInfoDoc;
         const tinyxml2::XMLError xmlError = analyzerInfoDoc.LoadFile(analyzerInfoFile.c_str());
         if (xmlError == tinyxml2::XML_SUCCESS) {
